@@ -419,12 +419,12 @@ Qed.
 Lemma granule_first_zero h stp b r cu :
   k_gran b = 0 -> dec_granule h (-1) 0 stp b r cu = (0, r, cu).
 Proof.
-  intros H. unfold dec_granule, trim_first. rewrite H. reflexivity.
+  intros H. unfold dec_granule, trim_first. rewrite H. destruct (k_pcm b); reflexivity.
 Qed.
 
 Definition mkd lW W cw cur ret gran seq count eof : dec :=
   {| d_lW := lW; d_W := W; d_centerW := cw; d_cur := cur; d_ret := ret; d_gran := gran; d_seq := seq;
-     d_count := count; d_eof := eof |}.
+     d_count := count; d_eof := eof; d_fresh := true |}.
 
 Lemma blockin_first c b :
   WFh c -> k_pcm b = true -> k_gran b = 0 ->
